@@ -94,7 +94,7 @@ class TCPServer:
                 await self.idle_task.stop()
 
     async def _read_data(self) -> None:
-        while not self.reader.at_eof():
+        while True:
             try:
                 data = await asyncio.wait_for(self.reader.read(MAX_RECV), self.config.read_timeout)
             except (
@@ -107,6 +107,8 @@ class TCPServer:
                 break
             else:
                 await self.protocol.handle(RawData(data))
+                if data == b"":  # EOF, which the protocol must always be told of
+                    break
 
         await self.protocol.handle(Closed())
 
